@@ -4,12 +4,14 @@ import (
 	"context"
 	"crypto/tls"
 	"errors"
+	"fmt"
 	"io"
 	"log/slog"
 	"net"
 	"time"
 
 	"github.com/anthdm/hollywood/actor"
+	"google.golang.org/protobuf/proto"
 	"storj.io/drpc/drpcconn"
 	"storj.io/drpc/drpcmanager"
 	"storj.io/drpc/drpcwire"
@@ -70,6 +72,12 @@ func (s *streamWriter) Invoke(msgs []actor.Envelope) {
 			senderID int32
 			targetID int32
 		)
+		// Only proto messages can be put on the wire; anything else is dropped
+		// here instead of panicking in the serializer's type assertion.
+		if _, ok := stream.msg.(proto.Message); !ok {
+			slog.Error("serialize", "err", fmt.Sprintf("message of type %T is not a proto.Message", stream.msg))
+			continue
+		}
 		typeID, typeNames = lookupTypeName(typeLookup, s.serializer.TypeName(stream.msg), typeNames)
 		senderID, senders = lookupPIDs(senderLookup, stream.sender, senders)
 		targetID, targets = lookupPIDs(targetLookup, stream.target, targets)
